@@ -402,6 +402,13 @@ func NewUpstream(addr string, opt Opt) (_ Upstream, err error) {
 	case "https":
 		const defaultPort = 443
 
+		// net/url and net/http take what follows the last colon of an IPv6
+		// host without brackets for a port. Put the brackets back, so that
+		// the endpoint url names the host that the user wrote.
+		if a, err := netip.ParseAddr(addrURL.Host); err == nil && a.Is6() {
+			addrURL.Host = "[" + addrURL.Host + "]"
+		}
+
 		idleConnTimeout := time.Second * 30
 		if opt.IdleTimeout > 0 {
 			idleConnTimeout = opt.IdleTimeout
